@@ -207,6 +207,7 @@ LAYOUT = {
 "list": "l :: [1, 2, 3]\n",
 "tuple": "t :: (1, \"a\")\n",
 "blob_instance": "p :: P { a: 1, b: [2] }\n",
+"assignment_target_with_brackets": "start :: fn do\n    at(1, 2).value = 3\n    at(x, [4]).value += f(5, 6)\n    q.w[0].v -= (1 + 2)\nend\n",
 "one_tuple_and_trailing_commas": "t :: (42,)\nu :: ((1,), 2)\nw :: (1, 2,)\n",
 "empty_tuple_and_grouping": "e :: ()\ng :: (42)\nh :: ((1 + 2), (3))\n",
 "trailing_commas_in_list_and_call": "l :: [1, 2,]\nx :: f(1, 2,)\n",
